@@ -427,15 +427,15 @@ func runMedia(focus string, checks ...string) func(c *Ctx, plan any) {
 			s := w.src[a.I]
 			if w.delivered[s.Ext] {
 				c.Count("fault.duplicate", 1)
-			} else if w.haveNewest && s.Ext < w.newest {
+			} else if s.Ext < w.pushedMax {
 				c.Count("fault.reordered", 1)
 			}
 			w.delivered[s.Ext] = true
 			if _, ok := w.arrivalPos[s.Ext]; !ok {
 				w.arrivalPos[s.Ext] = ai
 			}
-			if !w.haveNewest || s.Ext > w.newest {
-				w.newest, w.haveNewest = s.Ext, true
+			if s.Ext > w.pushedMax {
+				w.pushedMax = s.Ext
 			}
 			feed.Push(s.Raw)
 			w.pushed++
